@@ -451,6 +451,10 @@ class Ops(object):
                 return a is b
             if isinstance(op, ast.NotEq):
                 return a is not b
+        if isinstance(op, (ast.Eq, ast.NotEq)) and (isinstance(a, bool) or (is_z3(a) and z3.is_bool(a))) \
+                and (isinstance(b, bool) or (is_z3(b) and z3.is_bool(b))):
+            r = to_z3(a) == to_z3(b)
+            return r if isinstance(op, ast.Eq) else z3.Not(r)
         if isinstance(a, Abstract) and hasattr(a, "compare"):
             return a.compare(self, op, b, False)
         if isinstance(b, Abstract) and hasattr(b, "compare"):
